@@ -331,6 +331,15 @@ type db struct {
 	m     *dbModel
 	last  string
 	extra func(d *db, op simrt.Op) bool // property-specific ops; returns true if handled
+
+	aux     interface{}          // property-private state
+	onQuery func(q string)       // called with every client query text before it is sent
+}
+
+// dbOpts configures execDBOpt.
+type dbOpts struct {
+	extra   func(d *db, op simrt.Op) bool
+	prepare func(d *db) // runs after the cluster object exists and before it starts
 }
 
 func (d *db) fail(class, format string, a ...interface{}) {
@@ -374,6 +383,9 @@ func (d *db) fieldOpts(op simrt.Op) ([]pilosa.FieldOption, *dbField) {
 }
 
 func (d *db) query(node int, index, q string) ([]interface{}, error) {
+	if d.onQuery != nil {
+		d.onQuery(q)
+	}
 	return d.cl.query(node, index, q)
 }
 
@@ -763,6 +775,11 @@ func (d *db) checkQuery(index string, e *expr, node int, count bool) {
 
 // execDB is the shared executor: knobs nodes/replicas; client 0's ops run sequentially.
 func execDB(extra func(d *db, op simrt.Op) bool) func(c *simrt.Ctx) {
+	return execDBOpt(dbOpts{extra: extra})
+}
+
+func execDBOpt(o dbOpts) func(c *simrt.Ctx) {
+	extra := o.extra
 	return func(c *simrt.Ctx) {
 		var d *db
 		c.S.SetEager(true)
@@ -771,6 +788,9 @@ func execDB(extra func(d *db, op simrt.Op) bool) func(c *simrt.Ctx) {
 			cl.poolSize = int(c.Plan.Knob("pool", 0))
 			d = &db{c: c, cl: cl, m: newDBModel(), extra: extra}
 			c.State = d
+			if o.prepare != nil {
+				o.prepare(d)
+			}
 			if err := cl.start(); err != nil {
 				c.Fail("start", "%v", err)
 				return
